@@ -45,13 +45,14 @@ def stage_locality(ctx):
                 # a window that starts at the sensor itself (as read_sensor does), over Modbus/TCP framing, after the bulk window
                 if 2 * (s.offset - first) + 8 <= len(blk) and c != 'EnumBitmap22':
                     sub = blk[2 * (s.offset - first):][: 2 * ((s.size_ + 1) // 2 + 3)]
-                    try: v2 = repr(s.read(resp(sub, fa=s.offset, cnt=len(sub) // 2, kind='tcp')))
-                    except Exception as ex: v2 = type(ex).__name__     # noqa
-                    try: v3 = repr(s.read(resp(blk)))
-                    except Exception as ex: v3 = type(ex).__name__     # noqa
-                    if v2 != v0 or v3 != v0:
-                        st.violation('position-mapping', f'{attr}.{s.id_}: {v0} through the block at {first}, {v2} through a block starting at {s.offset}, {v3} through the first block again',
-                                     dict(table=attr, sensor=s.id_, block=bytes(blk).hex()))
+                    for framing in ('tcp', 'rtu'):
+                        try: v2 = repr(s.read(resp(sub, fa=s.offset, cnt=len(sub) // 2, kind=framing)))
+                        except Exception as ex: v2 = type(ex).__name__     # noqa
+                        try: v3 = repr(s.read(resp(blk)))
+                        except Exception as ex: v3 = type(ex).__name__     # noqa
+                        if v2 != v0 or v3 != v0:
+                            st.violation('position-mapping', f'{attr}.{s.id_}: {v0} through the block at {first}, {v2} through a {framing} block starting at {s.offset}, {v3} through the first block again',
+                                         dict(table=attr, sensor=s.id_, block=bytes(blk).hex(), framing=framing))
     return st
 
 
